@@ -14,6 +14,10 @@ set_option linter.unusedVariables false
 
 /-! ## the token source -/
 
+/-- a WORD token is not empty (the delimiter of a here-document is the value of a WORD token; an
+    empty delimiter would give an empty body span) -/
+def WNE (t : Token) : Prop := t.ttype = some .WORD → t.valueStr ≠ []
+
 /-- the (ghost) span `(a, b)` of a delivered token: non-empty; it is the token's recorded position
     unless the token is EOF (whose `pos` and value are `None`); it starts within the input.
     (Nothing is assumed about where a token *ends*: the NEWLINE the tokenizer appends ends at
@@ -21,7 +25,7 @@ set_option linter.unusedVariables false
     `len = 2`.  That every token reaching a tree ends within the input follows from the
     look-ahead at the reduction, see `la_range`.) -/
 def TokAt (len : Nat) (t : Token) (a b : Nat) : Prop :=
-  a < b ∧ ((t.ttype = some .EOF ∧ t.value = .none) ∨ (t.pos = some (a, b) ∧ a ≤ len))
+  a < b ∧ ((t.ttype = some .EOF ∧ t.value = .none) ∨ (t.pos = some (a, b) ∧ a ≤ len ∧ WNE t))
 
 /-- how the tokenizer may change a cell of the redirect store (`makeheredoc`): it attaches the
     body once -- a non-empty span after the redirect, within the input -- and, when called from
@@ -72,7 +76,8 @@ def InitState (s : Str) (l : Local) (e : Env) : Prop :=
     * `gather`: `gatherheredocuments` called from `p_simple_list` attaches bodies and may extend
       redirects ending right before the frontier;
     * `queue`, `ps`: the parser's own writes to the parser object (queueing a here-document
-      redirect that ends before the frontier; parser-state flags) keep the invariant;
+      redirect that ends before the frontier, with a non-empty delimiter; parser-state flags)
+      keep the invariant;
     * `nested`: a nested parser run leaves the outer tokenizer alone;
     * `init`: a fresh parser object satisfies it. -/
 structure TokSpans (TI : Nat → Nat → Local → Env → Prop) : Prop where
@@ -81,7 +86,7 @@ structure TokSpans (TI : Nat → Nat → Local → Env → Prop) : Prop where
   gather : ∀ len f st, SatS gatherheredocuments (fun l e => TI len f l e ∧ l.store = st)
     (fun _ l e => TI len f l e ∧ StoreStep len f true st l.store)
   queue : ∀ len f l e (cell : RedirCell) (kill : Bool), TI len f l e → cell.pos.2 < f →
-    cell.heredoc = none →
+    cell.heredoc = none → cell.delim ≠ [] →
     TI len f { l with store := l.store ++ [cell],
                       redirstack := l.redirstack ++ [(l.store.length, kill)] } e
   ps : ∀ len f l e (ps : PState), TI len f l e → TI len f { l with ps := ps } e
@@ -96,7 +101,7 @@ structure TokAct (TI : Nat → Nat → Local → Env → Prop) : Prop where
   gather : ∀ len f st, SatS gatherheredocuments (fun l e => TI len f l e ∧ l.store = st)
     (fun _ l e => TI len f l e ∧ StoreStep len f true st l.store)
   queue : ∀ len f l e (cell : RedirCell) (kill : Bool), TI len f l e → cell.pos.2 < f →
-    cell.heredoc = none →
+    cell.heredoc = none → cell.delim ≠ [] →
     TI len f { l with store := l.store ++ [cell],
                       redirstack := l.redirstack ++ [(l.store.length, kill)] } e
   ps : ∀ len f l e (ps : PState), TI len f l e → TI len f { l with ps := ps } e
@@ -121,7 +126,8 @@ theorem eofSym_eq : eofSym = 0 := rfl
 
 /-- a token on the stack (entered under the grammar symbol `sym`) occupying `[f, g]` -/
 def TokIn (len f sym : Nat) (t : Token) (g : Nat) : Prop :=
-  f ≤ g ∧ ((sym = eofSym ∧ t.value = .none) ∨ ∃ a b, t.pos = some (a, b) ∧ f ≤ a ∧ a < b ∧ b ≤ g)
+  f ≤ g ∧ ((sym = eofSym ∧ t.value = .none) ∨
+    ∃ a b, t.pos = some (a, b) ∧ f ≤ a ∧ a < b ∧ b ≤ g ∧ WNE t)
 
 def ValIn (len f : Nat) (x : Nat × SVal) (g : Nat) : Prop :=
   match x.2 with
@@ -146,9 +152,9 @@ theorem ValIn.mono {len f f' g g' : Nat} {x : Nat × SVal} (h : ValIn len f x g)
   | tok t =>
     obtain ⟨h1, h2⟩ := h
     refine ⟨by omega, ?_⟩
-    rcases h2 with h2 | ⟨a, b, hp, ha, hab, hb⟩
+    rcases h2 with h2 | ⟨a, b, hp, ha, hab, hb, hw⟩
     · exact Or.inl h2
-    · exact Or.inr ⟨a, b, hp, by omega, hab, by omega⟩
+    · exact Or.inr ⟨a, b, hp, by omega, hab, by omega, hw⟩
   | node n => exact NodeIn.mono h hf hg
   | nodes l => exact ⟨h.1, ListIn.mono h.2 hf hg⟩
 
